@@ -1,0 +1,12 @@
+//go:build verif
+
+package jwt
+
+import "time"
+
+// VerifSetNow replaces the package clock (build tag verif only) and returns a restore function.
+func VerifSetNow(f func() time.Time) (restore func()) {
+	g := nowFunc
+	nowFunc = f
+	return func() { nowFunc = g }
+}
